@@ -319,6 +319,9 @@ class SepWorld(BaseWorld):
         pk = self.pk
         if isinstance(self.S[ret], tmo.MultiStream) or isinstance(self.S[per], tmo.MultiStream):
             self.stats['moisture_on_multiphase_after_fallback'] += 1
+            for n in (ret, per):
+                if (self.mol(n) < 0).any() or (np.array(self.S[n].imol.data.to_array()) < 0).any():
+                    self.S[n].imol.data.remove_negatives()
             return 'indeterminate'
         if r[0] == 'exc':
             # infeasibility was reported; the helper raises after having written both outlets, so the
